@@ -67,6 +67,11 @@ Definition prim_strict (name : string) (args : list value) : option (res value) 
   | "le", [VInt a; VInt b] => Some (Val (VBool (a <=? b)%Z))
   | "gt", [VInt a; VInt b] => Some (Val (VBool (b <? a)%Z))
   | "ge", [VInt a; VInt b] => Some (Val (VBool (b <=? a)%Z))
+  | "lt", [VStr a; VStr b] => Some (Val (VBool (String.ltb a b)))
+  | "le", [VStr a; VStr b] => Some (Val (VBool (String.leb a b)))
+  | "gt", [VStr a; VStr b] => Some (Val (VBool (String.ltb b a)))
+  | "ge", [VStr a; VStr b] => Some (Val (VBool (String.leb b a)))
+  | "ne", [VStr a; VStr b] => Some (Val (VBool (negb (String.eqb a b))))
   | "eq", [VBool a; VBool b] => Some (Val (VBool (Bool.eqb a b)))
   | "eq", [VStr a; VStr b] => Some (Val (VBool (String.eqb a b)))
   | "not", [VBool a] => Some (Val (VBool (negb a)))
@@ -94,6 +99,7 @@ Definition prim_strict (name : string) (args : list value) : option (res value) 
 Definition is_lazy (name : string) : bool :=
   match name with
   | "if" | "and" | "or" | "or_unwrap" | "if_error" | "is_error" | "get_error" | "then" | "map_or" | "display" | "map" | "reduce" | "filter_len" => true
+  | "lt_all" | "le_all" | "gt_all" | "ge_all" | "ne_all" => true
   | _ => false
   end.
 
@@ -191,6 +197,20 @@ with call_general (fuel : nat) (L : lim) (h : N) (self : option ident) (tail : b
               | VOpt None => evt d
               | VOpt (Some x) => let! fv := ev1 fn in let! r := apply f L h fv [x] in ret (TVal r)
               | _ => fail (Stuck "expected optional") end
+          (* the library's DERIVED comparison operators (lt / le / gt / ge through cmp, ne through eq, for types without a native
+             one): both operands are evaluated, in order, also when the first is an error; the leftmost error is the result *)
+          | "lt_all", [a; b] | "le_all", [a; b] | "gt_all", [a; b] | "ge_all", [a; b] | "ne_all", [a; b] =>
+              let! ra := mcatch (let! v := ev1 a in ret (inl v)) (fun m => ret (inr m)) in
+              let! rb := mcatch (let! v := ev1 b in ret (inl v)) (fun m => ret (inr m)) in
+              match ra, rb with
+              | inr m, _ => fail (Err m)
+              | _, inr m => fail (Err m)
+              | inl va, inl vb =>
+                  match prim_strict (String.substring 0 2 name) [va; vb] with
+                  | Some r => retv r
+                  | None => fail (Stuck "derived comparison applied to values of the wrong shape")
+                  end
+              end
           | "display", [a] => let! v := ev1 a in
                               fun s => (Val (TVal v), mkst (out s ++ [show_value v])%list (calls s))
           | "map", [a; fn] =>
@@ -282,7 +302,7 @@ with run_body (fuel : nat) (L : lim) (h : N) (fv : value) (selfname : option ide
 (* ---- whole programs: top-level declarations are evaluated in order in the root scope (height 0) ---- *)
 Definition prims : list string :=
   ["add"; "sub"; "mul"; "mod"; "div_floor"; "neg"; "eq"; "ne"; "lt"; "le"; "gt"; "ge"; "not"; "len"; "to_str"; "error"; "some"; "none";
-   "has_value"; "value"; "push"; "to_array"; "get"; "if"; "and"; "or"; "or_unwrap"; "if_error"; "is_error"; "get_error"; "then"; "map_or"; "display"; "map"; "reduce"].
+   "has_value"; "value"; "push"; "to_array"; "get"; "lt_all"; "le_all"; "gt_all"; "ge_all"; "ne_all"; "if"; "and"; "or"; "or_unwrap"; "if_error"; "is_error"; "get_error"; "then"; "map_or"; "display"; "map"; "reduce"].
 Definition root_env : env := map (fun n => (n, VPrim n)) prims.
 
 Fixpoint run_decls (fuel : nat) (L : lim) (ds : list decl) (en : env) : M env :=
